@@ -18,6 +18,7 @@ import warnings
 import numpy as np
 
 from ..cert import DM, chol_factor, frac_json, repair_povm
+from ..exact import Pure, call_rng, describe, present_list, vary_ensemble
 from ..pool import Result, run_pool, worker_driver
 from .. import qgen
 
@@ -25,7 +26,12 @@ RULE = ("ensembles (2..5 states, dimension 2..4, real/complex integer amplitudes
         "density matrices, dyadic priors) from the seeded generator x strategy x primal/dual form x solver; per instance the Lean checker certifies "
         "[lo, hi] for the exact image of the inputs; non-trivial = certified interval clear of the trivial bounds (max prior + 1e-2 <= value <= 1 - 1e-2 "
         "for min-error; 1e-2 <= value for unambiguous) ; distinct = hash of the instance and call form; a second, smaller stream forces the "
-        "closed-form families (equiprobable pure pairs, linearly dependent sets, orthonormal sets) through the same worker")
+        "closed-form families (equiprobable pure pairs, linearly dependent sets, orthonormal sets) through the same worker; "
+        "presentation: every call receives the same values in a freshly drawn presentation per list element (C / Fortran / strided memory layout; real-valued "
+        "states as float64, integer-valued ones as int64), one in three complex ensembles of the kinds random / near has some states made real-valued "
+        "(real-dtype first element followed by complex ones, or the reverse; also computational basis vectors), priors with exact zeros, uniform priors given "
+        "explicitly or as None; the caller's list, arrays and priors must be untouched by every call and a repeated call on the same objects (one in four calls) "
+        "must return the same value")
 ASSUMPTIONS = [
     "toqito computes with the float inputs it is given; the instance certified is their exact dyadic image (difference <= 1e-15 relative)",
     "tolerance 2e-5 on CVXOPT-solved values (declared in DESIGN.md 4.4), 1e-3 for SCS",
@@ -249,6 +255,7 @@ def work(task, res: Result):
     rhos_f = [r.to_float() for r in rhos]
     base = {kk: inst[kk] for kk in ("d", "k", "cplx", "form", "kind", "probs")}
     base["states"] = [np.asarray(s) for s in states]
+    base["pres"], base["real_idx"] = inst.get("pres"), list(inst.get("real_idx", ()))
     # ---- min-error: certified interval
     try:
         Ms_ref, Y_ref = _solve_ref(rhos_f, probs)
@@ -285,9 +292,21 @@ def work(task, res: Result):
         if strategy == "unambiguous" and inst["form"] not in ("vec1d", "col"):
             continue  # the Gram-matrix program is defined for state vectors only
         desc = dict(base, strategy=strategy, primal_dual=pd, solver=solver, probs_given=inst["probs_given"])
-        args = dict(vectors=[np.asarray(s) for s in states], probs=(list(probs) if inst["probs_given"] else None), strategy=strategy, solver=solver, primal_dual=pd)
+        # the same values in a presentation drawn for this call (layout / real and integer dtypes, independently per list element)
+        prng = call_rng(inst.get("pres"), strategy, pd, solver)
+        args = dict(vectors=present_list(prng, states, force_real=inst.get("real_idx", ())), probs=(list(probs) if inst["probs_given"] else None),
+                    strategy=strategy, solver=solver, primal_dual=pd)
+        guard = Pure(**args)
         try:
             val, meas = state_distinguishability(**args)
+            why_mod = guard.modified()
+            val2 = None
+            if why_mod is None and prng is not None and int(prng.integers(4)) == 0:
+                try:
+                    val2 = float(state_distinguishability(**args)[0])   # the SAME objects again
+                    why_mod = guard.modified()
+                except (ArithmeticError, ZeroDivisionError):
+                    res.count("repeat-call/solver-numerical-failure")
         except (ArithmeticError, ZeroDivisionError) as e:
             # CVXOPT's KKT solver breaking down numerically on a degenerate instance: runtime behaviour of the solver,
             # not a statement about the optimum (DESIGN.md section 10); counted, never silently dropped
@@ -296,9 +315,18 @@ def work(task, res: Result):
         except Exception as e:
             res.case(desc, True, f"{strategy}/{pd}/{solver}/raise")
             res.violation(f"state_distinguishability({strategy},{pd}) raises {type(e).__name__}: {str(e)[:120]} on a valid {'complex' if inst['cplx'] else 'real'} ensemble",
-                          {"function": "state_distinguishability", "args": desc, "exception": f"{type(e).__name__}: {str(e)[:300]}", "cplx": inst["cplx"]})
+                          {"function": "state_distinguishability", "args": desc, "exception": f"{type(e).__name__}: {str(e)[:300]}", "cplx": inst["cplx"],
+                           "presentation": describe(args["vectors"])})
             continue
         tau = TAU.get(solver, 1e-3)
+        if why_mod is not None:
+            res.violation(f"state_distinguishability({strategy},{pd}): caller's arguments were modified ({why_mod})",
+                          {"function": "state_distinguishability", "args": desc, "modified": why_mod, "presentation": describe(args["vectors"]), "cplx": inst["cplx"], "check": "purity"})
+        elif val2 is not None:
+            res.count("repeat-call/checked")
+            if abs(val2 - float(val)) > 2 * tau:
+                res.violation(f"state_distinguishability({strategy},{pd}): a second call on the same objects returns {val2:.8f}, the first returned {float(val):.8f}",
+                              {"function": "state_distinguishability", "args": desc, "values": [float(val), val2], "presentation": describe(args["vectors"]), "cplx": inst["cplx"], "check": "repeat"})
         if strategy == "min_error":
             L, H = lo, hi
             nontriv = L is not None and H is not None and H - L <= WIDTH_OK and (maxp + 1e-2 <= L) and (H <= 1 - 1e-2)
@@ -313,7 +341,8 @@ def work(task, res: Result):
             continue
         if not (L - tau <= float(val) <= H + tau):
             res.violation(f"state_distinguishability({strategy},{pd},{solver}) = {float(val):.8f} outside the certified optimum [{L:.8f}, {H:.8f}]",
-                          {"function": "state_distinguishability", "args": desc, "impl": float(val), "certified": [L, H], "tau": tau, "theorem": thm, "cplx": inst["cplx"]})
+                          {"function": "state_distinguishability", "args": desc, "impl": float(val), "certified": [L, H], "tau": tau, "theorem": thm, "cplx": inst["cplx"],
+                           "presentation": describe(args["vectors"])})
             continue
         got[(strategy, pd, solver)] = float(val)
         # returned measurement (min-error): a valid POVM attaining the value
@@ -371,7 +400,12 @@ def work(task, res: Result):
         from toqito.measurements import pretty_good_measurement
         Pavg = sum(probs[i] * rhos_f[i] for i in range(k))
         if float(np.min(np.linalg.eigvalsh((Pavg + Pavg.conj().T) / 2))) >= 1e-6:
-            Gs = [np.asarray(g, dtype=complex) for g in pretty_good_measurement([np.asarray(s) for s in states], list(probs))]
+            pg_states, pg_probs = present_list(call_rng(inst.get("pres"), "pgm"), states, force_real=inst.get("real_idx", ())), list(probs)
+            pg_guard = Pure(pg_states, pg_probs)
+            Gs = [np.asarray(g, dtype=complex) for g in pretty_good_measurement(pg_states, pg_probs)]
+            if pg_guard.modified() is not None:
+                res.violation(f"pretty_good_measurement: caller's arguments were modified ({pg_guard.modified()})",
+                              {"function": "pretty_good_measurement", "args": base, "modified": pg_guard.modified(), "presentation": describe(pg_states), "check": "purity"})
             if all(np.all(np.isfinite(g)) for g in Gs) and float(np.max(np.abs(sum(Gs) - np.eye(d)))) <= 1e-7:
                 pgm_val = float(sum(probs[i] * np.real(np.trace(rhos_f[i] @ Gs[i])) for i in range(k)))
             else:
@@ -445,14 +479,18 @@ def work_invariance(task, res: Result):
             return U @ a
         return U @ a @ U.conj().T
 
+    ri = list(inst.get("real_idx", ()))
+    a0 = present_list(call_rng(inst.get("pres"), "inv0"), vecs, force_real=ri)
+    a2 = present_list(call_rng(inst.get("pres"), "inv2"), [vecs[i] for i in perm], force_real=[n for n, i in enumerate(perm) if i in ri])
     try:
-        v0, _ = state_distinguishability(vecs, probs)
-        v1, _ = state_distinguishability([rot(s) for s in vecs], probs)
-        v2, _ = state_distinguishability([vecs[i] for i in perm], [probs[i] for i in perm])
+        v0, _ = state_distinguishability(a0, probs)
+        v1, _ = state_distinguishability(present_list(call_rng(inst.get("pres"), "inv1"), [rot(s) for s in vecs]), probs)
+        v2, _ = state_distinguishability(a2, [probs[i] for i in perm])
     except Exception as e:
         res.case({"fn": "invariance", "k": inst["k"], "d": inst["d"]}, False, "invariance/raise")
         return
-    desc = {"fn": "invariance", "d": inst["d"], "k": inst["k"], "cplx": inst["cplx"], "form": inst["form"], "perm": perm, "states": vecs, "probs": probs, "U": U}
+    desc = {"fn": "invariance", "d": inst["d"], "k": inst["k"], "cplx": inst["cplx"], "form": inst["form"], "perm": perm, "states": vecs, "probs": probs, "U": U,
+            "pres": inst.get("pres"), "real_idx": ri}
     res.case(desc, True, "invariance")
     if abs(v0 - v1) > 4e-5 or abs(v0 - v2) > 4e-5:
         res.violation(f"min-error value not invariant: base {v0:.8f}, common unitary {v1:.8f}, relabelled {v2:.8f}", {"function": "state_distinguishability", "args": desc, "values": [v0, v1, v2], "theorem": "minErr value is a function of the ensemble up to unitary/relabelling"})
@@ -466,18 +504,19 @@ def run(ctx, model_ok=True):
     n_inst = 160 if quick else 1200
     solvers = ["cvxopt"]
     tasks = []
+    prs = rng.spawn(1)[0]   # presentation stream: a child of the seeded generator (spawning does not consume the parent's draws)
     for i in range(n_inst):
-        inst = gen_instance(rng, quick)
+        inst = vary_ensemble(prs, gen_instance(rng, quick))
         calls = [("min_error", "primal", "cvxopt"), ("min_error", "dual", "cvxopt"), ("unambiguous", "primal", "cvxopt"), ("unambiguous", "dual", "cvxopt")]
         tasks.append((inst, calls))
     # closed-form stream: the families with a proved closed form, through the same worker
     for i in range(24 if quick else 180):
-        inst = gen_instance(rng, quick, family=["pair", "dependent", "orthogonal"][i % 3])
+        inst = vary_ensemble(prs, gen_instance(rng, quick, family=["pair", "dependent", "orthogonal"][i % 3]))
         tasks.append((inst, [("min_error", "primal", "cvxopt"), ("min_error", "dual", "cvxopt"), ("unambiguous", "primal", "cvxopt"), ("unambiguous", "dual", "cvxopt")]))
     run_pool(ctx, work, tasks)
     inv = []
     for i in range(24 if quick else 160):
-        inst = gen_instance(rng, quick)
+        inst = vary_ensemble(prs, gen_instance(rng, quick))
         U = qgen.cayley_unitary(rng, inst["d"], inst["cplx"])
         if not inst["cplx"]:
             U = np.real(U)
@@ -489,7 +528,8 @@ def run(ctx, model_ok=True):
 
 def replay(ctx, rec):
     a = rec["args"]
-    inst = {"d": a["d"], "k": a["k"], "cplx": a["cplx"], "form": a["form"], "kind": a.get("kind", "random"), "probs": a["probs"], "probs_given": a.get("probs_given", True)}
+    inst = {"d": a["d"], "k": a["k"], "cplx": a["cplx"], "form": a["form"], "kind": a.get("kind", "random"), "probs": a["probs"], "probs_given": a.get("probs_given", True),
+            "pres": a.get("pres"), "real_idx": a.get("real_idx") or []}
 
     def arr(s):
         x = np.array([[complex(e["re"], e["im"]) if isinstance(e, dict) else e for e in row] if isinstance(row, list) else (complex(row["re"], row["im"]) if isinstance(row, dict) else row) for row in s])
